@@ -2,7 +2,6 @@ package bmc
 
 import (
 	"context"
-	"time"
 
 	"github.com/gebn/bmc/pkg/ipmi"
 
@@ -41,8 +40,17 @@ type refSDRRepo struct {
 }
 
 func (b *refSDRRepo) GetSDRRepositoryInfo(ctx context.Context) (*ipmi.GetSDRRepositoryInfoRsp, error) {
-	return &ipmi.GetSDRRepositoryInfoRsp{Records: uint16(len(b.records)),
-		LastAddition: time.Unix(int64(b.lastAdd), 0), LastErase: time.Unix(int64(b.lastErase), 0)}, nil
+	// the response as the device puts it on the wire (33.9), through the library's decoder
+	n := uint16(len(b.records))
+	d := []byte{0x51, byte(n), byte(n >> 8), 0xff, 0xff}
+	d = append(d, refPutLE32(b.lastAdd)...)
+	d = append(d, refPutLE32(b.lastErase)...)
+	d = append(d, 0x00)
+	rsp := &ipmi.GetSDRRepositoryInfoRsp{}
+	if err := rsp.DecodeFromBytes(d[:len(d):len(d)], gopacket.NilDecodeFeedback); err != nil {
+		return nil, err
+	}
+	return rsp, nil
 }
 
 func (b *refSDRRepo) ReserveSDRRepository(ctx context.Context) (*ipmi.ReserveSDRRepositoryRsp, error) {
@@ -213,8 +221,9 @@ func VerifC14_Modified() {
 	case 3:
 		b.bumpErase = vBool() // a BMC that keeps the reservation valid
 	}
-	vAssume(b.lastAdd < 0xfffffff0)
-	vAssume(b.lastErase < 0xfffffff0)
+	// the timestamp that advances may reach 0xFFFFFFFF ("unspecified" in some tables)
+	vAssume(b.lastAdd < 0xffffffff)
+	vAssume(b.lastErase < 0xffffffff)
 	vAssume(b.reservation < 0xff00)
 	b.changeAt = 1 + vChoice(2*n1+1) // before any Get SDR of the first walk, or just after it
 	ctx, cancel := context.WithCancel(context.Background())
@@ -288,8 +297,8 @@ func VerifC14_OverSession() {
 	recs1 := vRecords(1, false)
 	recs2 := vRecords(1, false)
 	repo := &refSDRRepo{records: recs1, reservation: vU16(), lastAdd: vU32(), lastErase: vU32(), newRecords: recs2}
-	vAssume(repo.lastAdd < 0xfffffff0)
-	vAssume(repo.lastErase < 0xfffffff0)
+	vAssume(repo.lastAdd < 0xffffffff)
+	vAssume(repo.lastErase < 0xffffffff)
 	vAssume(repo.reservation < 0xff00)
 	repo.bumpErase = vBool()
 	repo.changeAt = vChoice(4) // 0: never; 1..3: before that Get SDR request
